@@ -243,6 +243,15 @@ def thorough_selfcheck(chk: Check) -> None:
     print(f"self-check: {res['seeded_variants_fired']}/{res['seeded_variants_run']} seeded variants reported" + (f", {len(res['seeded_variants_skipped'])} skipped (anchor moved)" if res["seeded_variants_skipped"] else ""))
     for n in res["seeded_variants_not_fired"]:
         print(f"SELFTEST-WARN property={chk.pid} variant not reported: {n}")
+    try:
+        from .alpha import for_property as alpha_for
+        ar = alpha_for(chk.pid)
+        chk.extra.update(ar)
+        print(f"self-check: {ar['alpha_renamed_functions_silent']}/{ar['alpha_renamed_functions_run']} anchored functions stay silent with all their locals renamed")
+        for n in ar["alpha_renamed_functions_not_silent"]:
+            print(f"SELFTEST-WARN property={chk.pid} renaming locals changed the outcome: {n}")
+    except Exception as e:  # noqa: BLE001
+        print(f"SELFTEST-WARN property={chk.pid} alpha sweep could not run: {type(e).__name__}: {e}")
 
 
 def run_check(pid: str, tier: str, body, replay: dict | None = None) -> int:
